@@ -415,23 +415,92 @@ where
 // function for non-ASCII input (valid or invalid UTF-8) lead to the same rejection, so the model is
 // exact there. std's validator has nested word-wise loops that are unrolled to the global bound at
 // every site where a symbolic-type field could be a draft identification.
-#[repr(C)]
-struct RawUtf8Error {
-    valid_up_to: usize,
-    error_len: Option<u8>,
-}
-pub fn from_utf8_ascii_model(v: &[u8]) -> Result<&str, core::str::Utf8Error> {
-    let mut i = 0;
-    let mut ascii = true;
-    while i < v.len() {
+/// loop-free ASCII test for up to 32 bytes (longer inputs: plain loop)
+pub fn all_ascii(v: &[u8]) -> bool {
+    let n = v.len();
+    macro_rules! chk { ($($i:expr),*) => { $( if n > $i && v[$i] >= 0x80 { return false; } )* } }
+    chk!(0, 1, 2, 3, 4, 5, 6, 7, 8, 9, 10, 11, 12, 13, 14, 15, 16, 17, 18, 19, 20, 21, 22, 23, 24, 25, 26, 27, 28, 29, 30, 31);
+    let mut i = 32;
+    while i < n {
         if v[i] >= 0x80 {
-            ascii = false;
+            return false;
         }
         i += 1;
     }
-    if ascii {
+    true
+}
+pub fn from_utf8_ascii_model(v: &[u8]) -> Result<&str, core::str::Utf8Error> {
+    if all_ascii(v) {
         Ok(unsafe { core::str::from_utf8_unchecked(v) })
     } else {
-        Err(unsafe { std::mem::transmute::<RawUtf8Error, core::str::Utf8Error>(RawUtf8Error { valid_up_to: 0, error_len: Some(1) }) })
+        const _: () = assert!(std::mem::size_of::<core::str::Utf8Error>() == 16);
+        // all-zero = { valid_up_to: 0, error_len: None } whatever the field order; never inspected
+        Err(unsafe { std::mem::transmute::<[u8; 16], core::str::Utf8Error>([0u8; 16]) })
     }
+}
+/// Model of `<[u8]>::is_ascii` (the real one takes a word-at-a-time path with nested loops).
+pub fn is_ascii_model(v: &[u8]) -> bool {
+    all_ascii(v)
+}
+
+// ------------------------------------------------------------------------------------------
+// Recorders for `NtpPacket::nts_poll_message{,_v5}` (used by the *_timer harnesses): record what
+// `handle_timer` asks the request builder for (which cookie, how many cookies, which poll
+// exponent) and return a minimal packet (the plain poll message of the same version plus a request
+// identifier with a unique id taken from the ghost tape), so that the rest of `handle_timer`
+// (pending identifier, encoding, timer) runs on a packet without NTS fields. The real builders are
+// checked separately (c13_poll_message_*). Reason: `handle_timer` + real builder + encoder does not
+// fit (symex 337 s, 1.9 M steps, > 8 GB already with the encoder replaced).
+pub static mut PM_CALLS: u8 = 0;
+pub static mut PM_V5: bool = false;
+pub static mut PM_COOKIE_LEN: usize = 0;
+/// index (chosen by the harness up front) and the cookie byte found there
+pub static mut PM_JC: usize = 0;
+pub static mut PM_COOKIE_BYTE: u8 = 0;
+pub static mut PM_NEW_COOKIES: u8 = 0;
+pub static mut PM_POLL: i8 = 0;
+pub static mut PM_UID: [u8; 32] = [0; 32];
+
+fn pm_record(cookie: &[u8], new_cookies: u8, poll_interval: PollInterval, v5: bool) -> [u8; 32] {
+    let mut uid = [0u8; 32];
+    let w0 = crate::stubs::rng_word().to_le_bytes();
+    let w1 = crate::stubs::rng_word().to_le_bytes();
+    let w2 = crate::stubs::rng_word().to_le_bytes();
+    let w3 = crate::stubs::rng_word().to_le_bytes();
+    uid[0..8].copy_from_slice(&w0);
+    uid[8..16].copy_from_slice(&w1);
+    uid[16..24].copy_from_slice(&w2);
+    uid[24..32].copy_from_slice(&w3);
+    unsafe {
+        PM_CALLS += 1;
+        PM_V5 = v5;
+        PM_COOKIE_LEN = cookie.len();
+        if PM_JC < cookie.len() {
+            PM_COOKIE_BYTE = cookie[PM_JC];
+        }
+        PM_NEW_COOKIES = new_cookies;
+        PM_POLL = th::poll_raw(poll_interval);
+        PM_UID = uid;
+    }
+    uid
+}
+
+pub fn nts_poll_message_rec<'a>(cookie: &'a [u8], new_cookies: u8, poll_interval: PollInterval) -> (NtpPacket<'static>, ntp_proto::verif::packet::RequestId)
+where
+    'a: 'a,
+{
+    let uid = pm_record(cookie, new_cookies, poll_interval, false);
+    let (p, id) = NtpPacket::<'static>::poll_message(poll_interval);
+    let (t, _) = ntp_proto::verif::packet::request_identifier_parts(id);
+    (p, ntp_proto::verif::packet::request_identifier(t, Some(uid)))
+}
+
+pub fn nts_poll_message_v5_rec<'a>(cookie: &'a [u8], new_cookies: u8, poll_interval: PollInterval) -> (NtpPacket<'static>, ntp_proto::verif::packet::RequestId)
+where
+    'a: 'a,
+{
+    let uid = pm_record(cookie, new_cookies, poll_interval, true);
+    let (p, id) = NtpPacket::<'static>::poll_message_v5(poll_interval);
+    let (t, _) = ntp_proto::verif::packet::request_identifier_parts(id);
+    (p, ntp_proto::verif::packet::request_identifier(t, Some(uid)))
 }
